@@ -36,6 +36,8 @@ type knownFinding struct {
 	WhereContains string `json:"where_contains,omitempty"`
 	What          string `json:"what"`
 	Commit        string `json:"commit,omitempty"`
+	// MatchUnconfirmed: engine-only obligations (tracked-range overflow) of this harness that belong to the finding
+	MatchUnconfirmed bool `json:"match_unconfirmed,omitempty"`
 }
 
 func main() {
@@ -151,6 +153,7 @@ func main() {
 				lemmaFailed = true
 			}
 		}
+		nativeValidation(h, hr, *replayDir, self, *seed)
 	}
 	if lemmaFailed {
 		// a stage lemma was refuted: look for an end-to-end, natively replayable counterexample
@@ -181,6 +184,41 @@ func main() {
 	code := report(*prop, *tier, *seed, results, kf, *out, time.Since(t0).Seconds(), eng)
 	pprof.StopCPUProfile()
 	os.Exit(code)
+}
+
+// nativeValidation runs the harness once natively (pseudo-random atoms / zero inputs) and compares with the engine's
+// verdicts: an assertion the engine discharged but that fails on the real build with real numbers (e.g. an error
+// term of the wrong magnitude, which the algebraic model cannot see) is reported as a violation found by the
+// validation run, with its replay file.
+func nativeValidation(h *ssa.Function, hr *symgo.HarnessResult, replayDir, self string, seed int64) {
+	rf := symgo.ReplayFile{Package: h.Pkg.Pkg.Path(), Harness: h.Name(), Obligation: "native-validation", Kind: "validation",
+		Inputs: map[string]string{"@seed": fmt.Sprint(seed*2654435761 + 12345)}}
+	os.MkdirAll(replayDir, 0o755)
+	path := filepath.Join(replayDir, h.Name()+"_native-validation.json")
+	b, _ := json.MarshalIndent(rf, "", " ")
+	os.WriteFile(path, b, 0o644)
+	nr := symgo.RunNativeReplay(self, path, 120*time.Second)
+	hr.NativeValidated = true
+	if nr.AssumeFailed {
+		return
+	}
+	engineSaw := map[string]string{}
+	for _, r := range hr.Results {
+		if r.Verdict == "violated" || r.Verdict == "unconfirmed" {
+			engineSaw[r.ID] = r.Verdict
+		}
+	}
+	for _, id := range nr.Failed {
+		if _, ok := engineSaw[id]; ok {
+			continue
+		}
+		hr.Results = append(hr.Results, symgo.OblResult{Harness: h.Name(), ID: id, Kind: "validation", Verdict: "violated", Replay: path,
+			Note: "assertion fails in the native validation run of the harness (real build, concrete numbers) although the symbolic run discharged it"})
+	}
+	if (nr.Panic != "" || nr.Crashed) && len(nr.Failed) == 0 {
+		hr.Results = append(hr.Results, symgo.OblResult{Harness: h.Name(), ID: "native-validation-no-panic", Kind: "validation", Verdict: "violated", Replay: path,
+			Note: "native validation run panicked: " + nr.Panic + nr.Output})
+	}
 }
 
 func matchKnown(kf []knownFinding, prop string, r *symgo.OblResult) *knownFinding {
@@ -275,7 +313,16 @@ func report(prop, tier string, seed int64, results []*symgo.HarnessResult, kf []
 					violations = append(violations, *r)
 				}
 			case "unconfirmed":
-				unconfirmed++
+				if k := matchKnown(kf, prop, r); k != nil && k.MatchUnconfirmed {
+					if !knownSeen[k.ID] {
+						fmt.Printf("KNOWN-FINDING: property=%s %s (%s; harness %s obligation %s)\n", prop, k.What, k.ID, r.Harness, r.ID)
+						knownSeen[k.ID] = true
+					}
+					r.Verdict = "known-finding"
+					discharged++
+				} else {
+					unconfirmed++
+				}
 			default:
 				unknown++
 			}
